@@ -340,6 +340,10 @@ func checkC07(prop, tier string) int {
 			continue
 		}
 		if r.Crashed || r.Err != "" {
+			if v := crashViolation(pool, "C07", jobs[i], r); v != nil {
+				viols = append(viols, *v)
+				continue
+			}
 			infra++
 			fmt.Fprintf(os.Stderr, "INFRA: c07 job %d: %s %s\n", i, r.Err, tail(r.Stderr, 600))
 			continue
